@@ -2,242 +2,887 @@
 
 The behavioural statement needs the kernel's ground truth: not decided.  Claimed
 are necessary structural clauses (DESIGN §3 C02).
+
+Hardened formulation (see REPORT-C02.md): every clause is evaluated on *roots* (exported API,
+poll-method slots) with the static helpers inlined, at *sites* identified by what they do (an indirect
+call through the method table, a call of epoll_ctl / poll, a store to pollfd.events, a call of the
+exported iv_fd_make_ready) and over a finite abstract domain (h02.AbsInt) or symbolic terms (h02.Sym)
+instead of matching helper names, variable names, expression text or branch shapes.
 """
-import re
-from ..core import (names_of, same_value, AnalysisBroken, Inliner, canon, strip, last_member, must_pass, relpath, norm_cond, walk, forward)
-from ..analyses import (is_call, holding, path_to, describe, exits_of, callback_kind, loops, innermost_loop,
-                        delta_analysis, is_fail, must_pass_from_block)
-from .. import interp
+import itertools
+
+from ..core import (names_of, AnalysisBroken, Inliner, canon, strip, last_member, norm_cond, walk, forward)
+from ..analyses import (is_call, holding, path_to, describe, callback_kind, atoms_imply, list_empty_test)
+from .. import roles
 from . import c06
+from . import h02
+from .h02 import NZ
 
 MASKIN, MASKOUT, MASKERR = 1, 2, 4
 IN, OUT, ERR, HUP = 1, 4, 8, 16     # EPOLL* == POLL* on Linux
+EPOLL_CTL_DEL = 2
+FD = 'iv_fd_'
 HANDLER_FIELDS = {'handler_in': MASKIN, 'handler_out': MASKOUT, 'handler_err': MASKERR}
+CORE_FIELDS = {(FD, 'handler_in'), (FD, 'handler_out'), (FD, 'handler_err'), (FD, 'registered'), (FD, 'wanted_bands')}
+PUBLIC_HANDLERS = {('iv_fd', 'handler_in'), ('iv_fd', 'handler_out'), ('iv_fd', 'handler_err')}
+WANTED, REGD = ('m', FD, 'wanted_bands'), ('m', FD, 'registered_bands')
+EVENT_SOURCES = {('pollfd', 'revents'), ('epoll_event', 'events')}      # where the kernel reports
+REQ_POLL, REQ_EPOLL = ('pollfd', 'events'), ('epoll_event', 'events')   # where the library requests
+WAITS = ('epoll_wait', 'epoll_pwait', 'epoll_pwait2', 'poll', 'ppoll')
+ARRAY_WAITS = ('poll', 'ppoll')
+SLOTS = ('poll', 'notify_fd', 'notify_fd_sync', 'unregister_fd', 'register_fd')
 
 
 def is_method_notify(e):
     return e['ev'] == 'call' and callback_kind(e) in (('method', 'notify_fd'), ('method', 'notify_fd_sync'))
 
 
+def short(t):
+    return t.replace('iv_fd_poll_method_', '')
+
+
+def want_of(reg, hin, hout, herr):
+    return ((MASKIN if hin else 0) | (MASKOUT if hout else 0) | (MASKERR if herr else 0)) if reg else 0
+
+
+def report_of(sigma):
+    return ((MASKIN if sigma & (IN | ERR | HUP) else 0) | (MASKOUT if sigma & (OUT | ERR | HUP) else 0)
+            | (MASKERR if sigma & (ERR | HUP) else 0))
+
+
+def need_of(kind, w):
+    n = (IN if w & MASKIN else 0) | (OUT if w & MASKOUT else 0)
+    if kind == REQ_POLL and w & MASKERR:
+        n |= HUP
+    return n
+
+
+def slot_roots(prog, slots=SLOTS, tables=None):
+    """[(table, slot, function, inlined function)] one entry per distinct function"""
+    out, seen = [], set()
+    for t, sl in sorted(prog.method_tables().items()):
+        if tables is not None and t not in tables:
+            continue
+        for s_ in slots:
+            v = sl.get(s_)
+            f = prog.resolve(*v) if v and v[0] != 'str' else None
+            if f is None or f.q in seen:
+                continue
+            seen.add(f.q)
+            out.append((t, s_, f))
+    return out
+
+
+def inline_slot(prog, t, f, stop=('iv_event_run_pending_events',)):
+    stop = tuple(stop)
+    return Inliner(prog, method_table=t, expand_methods=True, stop=lambda x: x.name in stop).inline(f)
+
+
 def run(ctx):
     ctx.rule('R-C02a', 'every change of a registered descriptor\'s handlers / registered flag reaches the poll method: the store is '
                        'followed on every path to a normal return by the method\'s notify_fd or notify_fd_sync; handlers set '
                        'through the public type inside the library are followed by iv_fd_register of that object', floor=6)
-    ctx.rule('R-C02b', 'wanted bands are exactly the bands of the non-NULL handlers of a registered descriptor (16 abstract states)', floor=16)
-    ctx.rule('R-C02c', 'deferred kernel updates are flushed before every wait: at the wait primitive the notify list is empty on every path; '
-                       'registered_bands is updated only on the success edge of the kernel call', floor=3)
+    ctx.rule('R-C02b', 'wanted bands are the bands of the non-NULL handlers of a registered descriptor: whenever the poll method is '
+                       'notified wanted_bands includes them, and at every successful return of an API call that notifies it equals '
+                       'them (16 abstract states per entry point; the invariant is assumed at entry)', floor=32)
+    ctx.rule('R-C02c', 'deferred kernel updates: a changed descriptor is queued by notify_fd, the queue is drained before every wait, '
+                       'a synchronous flush leaves registered == wanted, registered_bands is set to wanted_bands and only on the '
+                       'success edge of the kernel call, and a descriptor with wanted bands is never removed from the kernel set', floor=6)
     ctx.rule('R-C02d', 'request and report tables agree in every method: each wanted band requests its primary event; reported bands '
-                       'are IN<-{IN,ERR,HUP}, OUT<-{OUT,ERR,HUP}, ERR<-{ERR,HUP}', floor=12)
+                       'are IN<-{IN,ERR,HUP}, OUT<-{OUT,ERR,HUP}, ERR<-{ERR,HUP} for every batch entry that is examined', floor=12)
     ctx.rule('R-C02e', 'zero timeout while tasks are pending (shared with C06)', floor=1)
     ctx.rule('R-C02f', 'poll-array compaction keeps the moved descriptor\'s request: the vacated slot receives the whole last entry '
-                       '(or at least its fd and events), the moved descriptor\'s index and back-pointer are updated', floor=3)
+                       '(or at least its fd and events), the moved descriptor\'s index and back-pointer are updated; an appended entry '
+                       'gets the descriptor\'s fd, an event mask, the back-pointer, and the descriptor its index', floor=6)
     ctx.section(compaction)
     ctx.section(notify)
     ctx.section(wanted)
     ctx.section(flush)
-    ctx.section(tables)
+    ctx.section(kernel_requests)
+    ctx.section(report)
     ctx.section(zero)
+
+
+# --------------------------------------------------------------------------
+# R-C02f  swap-remove of the poll array (symbolic, per path)
+# --------------------------------------------------------------------------
+
+def _tname(t):
+    return (t or '').replace('const ', '').strip()
+
+
+def _compaction_path(sym, p, fdterm):
+    """None when the path does not remove an array entry; else dict(entry=, index=, pointer=, why=)."""
+    M = p.M
+    counts = [a for a, v in M.items() if a[0] == 'fld' and h02.term_root(a)[0] != 'var' and v == h02.t_add(('ld', a), -1)]
+    if not counts:
+        return None
+    n1 = M[counts[0]]
+    for f in p.facts:
+        if f[0] == '==':
+            for y, z in ((f[1], f[2]), (f[2], f[1])):
+                if z == n1 and y[0] == 'ld' and h02.term_root(y[1]) == fdterm:
+                    return {'entry': True, 'index': True, 'pointer': True, 'why': 'the removed descriptor was the last entry'}
+    elems = set()
+    for a in M:
+        if a[0] == 'elem':
+            elems.add(a)
+        elif a[0] == 'fld' and a[1][0] == 'elem':
+            elems.add(a[1])
+    slots = {a[2] for a in elems if a[2][0] == 'ld' and h02.term_root(a[2][1]) == fdterm}
+    res = {'entry': False, 'index': False, 'pointer': False, 'why': 'no array slot addressed by a field of the removed descriptor is written'}
+    for X in slots:
+        r = {'entry': False, 'index': False, 'pointer': False, 'why': ''}
+        L = None
+        for a in elems:
+            if a[2] == X and _tname(sym.types.get(a)) == 'struct iv_fd_ *' and M.get(a) == ('ld', ('elem', a[1], n1)):
+                r['pointer'] = True
+                L = M[a]
+        if L is None:
+            # the moved descriptor, as far as the path names it: any pointer loaded from the back-pointer array at the new count
+            for a in elems:
+                if _tname(sym.types.get(a)) == 'struct iv_fd_ *':
+                    L = ('ld', ('elem', a[1], n1))
+        if L is not None:
+            ai = h02.term_replace(X[1], fdterm, L)
+            r['index'] = M.get(ai) == X
+        for a in elems:
+            if a[2] != X or _tname(sym.types.get(a)) != 'struct pollfd':
+                continue
+            src = ('elem', a[1], n1)
+            whole = M.get(a) == ('ld', src)
+
+            def eff(fld, a=a, src=src, whole=whole):
+                k = ('fld', a, 'pollfd', fld)
+                if k in M:
+                    return M[k]
+                return ('ld', ('fld', src, 'pollfd', fld)) if whole else None
+            fdv, evv = eff('fd'), eff('events')
+            fd_ok = fdv is not None and (fdv == ('ld', ('fld', src, 'pollfd', 'fd')) or (L is not None and fdv == ('ld', ('fld', L, FD, 'fd'))))
+            wl = ('ld', ('fld', L, FD, 'wanted_bands')) if L is not None else None
+            ev_ok = evv is not None and (evv == ('ld', ('fld', src, 'pollfd', 'events'))
+                                         or (wl is not None and (h02.term_contains(evv, wl)
+                                                                 # recomputed by an inlined helper: the path branched on the moved descriptor's bands
+                                                                 or any(h02.term_contains(f_, wl) for f_ in p.facts))))
+            r['entry'] = fd_ok and ev_ok
+            r['why'] = 'copies %s' % ('the whole last entry' if whole and fd_ok and ev_ok else
+                                      'fd: %s, events: %s (both must come from the last entry / the moved descriptor: otherwise it is '
+                                      'polled with the removed descriptor\'s event mask)' % ('yes' if fd_ok else 'no', 'yes' if ev_ok else 'no'))
+        if sum(r[k] for k in ('entry', 'index', 'pointer')) >= sum(res[k] for k in ('entry', 'index', 'pointer')):
+            res = r
+    return res
+
+
+def _add_path(sym, p, fdterm):
+    """None when the path does not append an array entry; else dict(entry=, index=, pointer=, why=)."""
+    M = p.M
+    counts = [a for a, v in M.items() if a[0] == 'fld' and h02.term_root(a)[0] != 'var' and v == h02.t_add(('ld', a), 1)]
+    if not counts:
+        return None
+    slot = ('ld', counts[0])            # the old count is the new entry's index
+    r = {'entry': False, 'index': False, 'pointer': False, 'why': ''}
+    r['index'] = any(a[0] == 'fld' and h02.term_root(a) == fdterm and v == slot for a, v in M.items())
+    elems = set()
+    for a in M:
+        if a[0] == 'elem':
+            elems.add(a)
+        elif a[0] == 'fld' and a[1][0] == 'elem':
+            elems.add(a[1])
+    for a in elems:
+        if a[2] != slot:
+            continue
+        if _tname(sym.types.get(a)) == 'struct iv_fd_ *' and M.get(a) == fdterm:
+            r['pointer'] = True
+        if _tname(sym.types.get(a)) == 'struct pollfd':
+            fdv = sym.read(('fld', a, 'pollfd', 'fd'), M)
+            evv = sym.read(('fld', a, 'pollfd', 'events'), M)
+            fd_ok = fdv == ('ld', ('fld', fdterm, FD, 'fd'))
+            # which mask is R-C02d's business (the helper computing it is inlined: the dependence on wanted_bands is control flow)
+            ev_ok = (('fld', a, 'pollfd', 'events') in M or a in M) and evv[0] != 'ld'
+            r['entry'] = fd_ok and ev_ok
+            r['why'] = 'new pollfd entry: fd is the descriptor\'s fd: %s, events written: %s' % ('yes' if fd_ok else 'no', 'yes' if ev_ok else 'no')
+    return r
 
 
 def compaction(ctx):
     prog = ctx.prog
     done = set()
+    ntab = 0
     for t, slots in sorted(prog.method_tables().items()):
-        if not (slots.get('register_fd') and not slots.get('unregister_fd')):
-            continue
-        f = prog.resolve(*slots['notify_fd'])
-        if f.q in done:
-            continue
-        done.add(f.q)
-        # the removal arm: stores into pfds[<fd's index>] whose value comes from the last occupied entry
-        st = [e for e in f.events() if e['ev'] == 'store' and 'pfds[' in canon(e['lhs']) and 'u.index]' in canon(e['lhs'])
-              and ('num_regd_fds]' in canon(e.get('rhs', {})) or 'last' in canon(e.get('rhs', {})) or canon(e.get('rhs', {})) == '0')]
-        whole = [e for e in st if canon(e['lhs']).endswith(']') and canon(e['rhs']).endswith('num_regd_fds]') and 'pfds[' in canon(e['rhs'])]
-        fields = {canon(e['lhs']).rsplit('.', 1)[-1] for e in st if not canon(e['lhs']).endswith(']')}
-        ok = bool(whole) or {'fd', 'events'} <= fields
-        ctx.ob('R-C02f', '%s:moved-entry-complete' % f.name, ok, loc=(st or [{'loc': f.loc}])[0]['loc'],
-               detail='swap-remove of a pollfd slot copies %s' % ('the whole last entry' if whole else 'only the fields %s of the last entry (fd and events are needed: '
-                      'otherwise the moved descriptor is polled with the removed descriptor\'s event mask)' % sorted(fields)), fn=f.q)
-        back = [e for e in f.events() if e['ev'] == 'store' and canon(e['lhs']).endswith('->u.index') and canon(e.get('rhs', {})).endswith('->u.index')]
-        ptr = [e for e in f.events() if e['ev'] == 'store' and 'fds[' in canon(e['lhs']) and 'pfds[' not in canon(e['lhs']) and 'u.index]' in canon(e['lhs'])
-               and canon(e.get('rhs', {})) not in ('NULL', '0')]
-        ctx.ob('R-C02f', '%s:moved-descriptor-index' % f.name, bool(back), loc=f.loc,
-               detail='the moved descriptor is given the vacated index', fn=f.q)
-        ctx.ob('R-C02f', '%s:moved-descriptor-pointer' % f.name, len(ptr) >= 2, loc=f.loc,
-               detail='the descriptor pointer array is updated for both the new and the moved slot', fn=f.q)
+        v = slots.get('poll')
+        pf = prog.resolve(*v) if v else None
+        if pf is None or not any(is_call(e, ARRAY_WAITS) for e in h02.inlined(prog, pf).events()):
+            continue        # the kernel keeps the interest set (epoll): no array to compact
+        ntab += 1
+        found = False
+        for slot in ('notify_fd', 'notify_fd_sync'):
+            v = slots.get(slot)
+            f = prog.resolve(*v) if v else None
+            if f is None:
+                continue
+            fdp = [p for p in f.params if p.get('record') == FD and p.get('ptr')]
+            if not fdp:
+                raise AnalysisBroken('%s.%s: no descriptor parameter' % (t, slot))
+            fdterm = ('ld', ('var', fdp[0]['name']))
+            g = h02.inlined(prog, f)
+            sym = h02.Sym(g)
+            paths = [p for p in sym.run() if not p.cut]
+            rs = [r for r in (_compaction_path(sym, p, fdterm) for p in paths) if r is not None]
+            adds = [r for r in (_add_path(sym, p, fdterm) for p in paths) if r is not None]
+            if not rs:
+                continue
+            if not adds:
+                raise AnalysisBroken('%s.%s: entries are removed from the poll array but no path appends one' % (t, slot))
+            found = True
+            if f.q in done:
+                continue
+            done.add(f.q)
+            lab = '%s:%s' % (short(t), slot)
+            for key, name, what in (('entry', 'new-entry-complete', 'the appended pollfd entry gets the descriptor\'s fd and an event mask'),
+                                    ('index', 'new-entry-index', 'the descriptor records the index of its new entry (the old count)'),
+                                    ('pointer', 'new-entry-pointer', 'the descriptor pointer array slot of the new entry points to the descriptor')):
+                bad = [r for r in adds if not r[key]]
+                ctx.ob('R-C02f', '%s:%s' % (lab, name), not bad, loc=f.loc,
+                       detail='%s on every path that appends an entry (%d paths)%s'
+                              % (what, len(adds), ('; ' + bad[0]['why']) if bad and bad[0]['why'] else ''), fn=f.q)
+            for key, name, what in (('entry', 'moved-entry-complete', 'the vacated pollfd slot receives the last entry (fd and events)'),
+                                    ('index', 'moved-descriptor-index', 'the moved descriptor is given the vacated index'),
+                                    ('pointer', 'moved-descriptor-pointer', 'the descriptor pointer array slot of the vacated index points to the moved descriptor')):
+                bad = [r for r in rs if not r[key]]
+                ctx.ob('R-C02f', '%s:%s' % (lab, name), not bad, loc=f.loc,
+                       detail='%s on every path that removes an entry other than the last (%d paths)%s'
+                              % (what, len(rs), ('; ' + bad[0]['why']) if bad and bad[0]['why'] else ''), fn=f.q)
+        if not found:
+            raise AnalysisBroken('%s: no path of notify_fd removes an entry from the poll array' % t)
+    if not ntab:
+        raise AnalysisBroken('no poll method that keeps a pollfd array')
+
+
+# --------------------------------------------------------------------------
+# R-C02a  every interest change reaches the poll method
+# --------------------------------------------------------------------------
+
+def unfollowed(prog, g, starts, is_done):
+    """ids of the start events from which a normal, non-failing return of the root can be reached without
+    passing an event e with is_done(e, start).  Path-sensitive in the returned value (a merged `return ret`
+    is a failure return only for the states in which ret is known non-zero)."""
+    P = ('x', 'pending')
+    idx = {id(e): i for i, e in enumerate(starts)}
+
+    def on_event(e, s, ai):
+        if id(e) in idx:
+            return _with(s, P, s.get(P, frozenset()) | {idx[id(e)]})
+        pend = s.get(P)
+        if pend and e['ev'] in ('call', 'enter'):
+            rest = frozenset(i for i in pend if not is_done(e, starts[i]))
+            if rest != pend:
+                return _with(s, P, rest)
+        return None
+    ai = h02.AbsInt(g, on_event=on_event, prog=prog)
+    ev_in = ai.run([{}])
+    bad = set()
+    for (e, S) in ai.root_exits(ev_in):
+        for fs in S:
+            st = dict(fs)
+            if e is not None and 'value' in e:
+                rc = ai.ev(e['value'], st)
+                if rc == NZ or (isinstance(rc, int) and rc != 0):
+                    continue        # the call reported failure: nothing is registered
+            bad |= set(st.get(P, ()))
+    return {id(starts[i]) for i in bad}
 
 
 def notify(ctx):
     prog = ctx.prog
-    n = 0
-    for f in sorted(prog.all_funcs(), key=lambda f: f.q):
-        if f.static or not f.file.endswith('iv_fd.c'):
-            continue
-        g = Inliner(prog).inline(f)
-        stores = [e for e in g.events() if e['ev'] == 'store' and last_member(e['lhs']) in
-                  (('iv_fd_', 'handler_in'), ('iv_fd_', 'handler_out'), ('iv_fd_', 'handler_err'), ('iv_fd_', 'registered'),
-                   ('iv_fd_', 'wanted_bands'))]
+    locs = set()
+
+    def core_store(e):
+        return e['ev'] == 'store' and last_member(e['lhs']) in CORE_FIELDS
+
+    for f in h02.nearest_roots(prog, core_store):
+        g = h02.inlined(prog, f)
+        stores = [e for e in g.events() if core_store(e)]
         if not stores:
             continue
-        res = delta_analysis(g, [])
-        failing = {id(e) for (e, d, rc, p) in res.rets if e is not None and is_fail(rc)}
-        okret = {id(e) for (e, d, rc, p) in res.rets if e is not None and not is_fail(rc)}
+        bad = unfollowed(prog, g, stores, lambda e, s: is_method_notify(e)) if f.name != 'IV_FD_INIT' else set()
         for s in stores:
-            n += 1
+            locs.add(s['loc'])
             fld = last_member(s['lhs'])[1]
-            inst = '%s:%s%s' % (f.name, fld, ('=' + canon(s.get('rhs'))) if fld == 'wanted_bands' else '')
+            rv = strip(s.get('rhs')) if 'rhs' in s else None
+            inst = '%s:%s%s' % (f.name, fld, ('=%d' % rv['v']) if fld == 'wanted_bands' and isinstance(rv, dict) and rv.get('k') == 'int' else '')
             if f.name == 'IV_FD_INIT':
                 ctx.exempt('R-C02a', inst, 'initialiser of an unregistered object')
                 ctx.ob('R-C02a', inst, True, loc=s['loc'], detail='exempt: initialiser of an unregistered object', fn=f.q)
                 continue
-            mp = must_pass(g, is_method_notify, start_event=s)
-            bad = []
-            for (pb, pi, e) in exits_of(g):
-                if id(e) in failing and id(e) not in okret:
-                    continue     # registration reported failure: nothing is registered
-                if mp.get((pb, pi)) is False:
-                    bad.append(e)
-            if mp.get((g.exit, 0)) is False and g.ret == 'void':
-                bad.append(None)
-            ctx.ob('R-C02a', inst, not bad, loc=s['loc'],
+            ctx.ob('R-C02a', inst, id(s) not in bad, loc=s['loc'],
                    detail='%s is followed by method->notify_fd / notify_fd_sync on every path to a normal return' % describe(s), fn=f.q)
+
     # public-type handler stores inside the library
-    for f in sorted(prog.all_funcs(), key=lambda f: f.q):
-        for s in f.events():
-            if s['ev'] == 'store' and last_member(s['lhs']) in (('iv_fd', 'handler_in'), ('iv_fd', 'handler_out'), ('iv_fd', 'handler_err')):
-                obj = canon(strip(s['lhs'])['base'])
-                mp = must_pass(f, lambda e, obj=obj: is_call(e, ('iv_fd_register', 'iv_fd_register_try')) and canon(e['args'][0]) == '&' + obj, start_event=s)
-                res = delta_analysis(f, [])
-                failing = {id(e) for (e, d, rc, p) in res.rets if e is not None and is_fail(rc)}
-                bad = [e for (pb, pi, e) in exits_of(f) if mp.get((pb, pi)) is False and id(e) not in failing]
-                n += 1
-                ctx.ob('R-C02a', '%s:%s.%s' % (f.name, obj.split('->')[-1], last_member(s['lhs'])[1]), not bad, loc=s['loc'],
-                       detail='library-internal descriptor: handler store is followed by iv_fd_register(&%s) on every non-error path' % obj, fn=f.q)
-    if n < 8:
-        raise AnalysisBroken('handler/registered stores: %d found' % n)
+    def pub_store(e):
+        return e['ev'] == 'store' and last_member(e['lhs']) in PUBLIC_HANDLERS
+
+    def registers(e, s):
+        objs = h02.obj_pointer_names(s['lhs'])
+        return is_call(e, ('iv_fd_register', 'iv_fd_register_try')) and bool(e.get('args')) \
+            and bool((set(names_of(e['args'][0])) | {canon(e['args'][0])}) & objs)
+
+    for f in h02.nearest_roots(prog, pub_store):
+        g = h02.inlined(prog, f)
+        stores = [e for e in g.events() if pub_store(e)]
+        bad = unfollowed(prog, g, stores, registers)
+        for s in stores:
+            locs.add(s['loc'])
+            obj = canon(strip(s['lhs'])['base'])
+            ctx.ob('R-C02a', '%s:%s.%s' % (f.name, obj.split('->')[-1], last_member(s['lhs'])[1]), id(s) not in bad, loc=s['loc'],
+                   detail='library-internal descriptor: handler store is followed by iv_fd_register of %s on every non-error path' % obj, fn=f.q)
+    if len(locs) < 8:
+        raise AnalysisBroken('handler/registered stores: %d distinct sites found' % len(locs))
+
+
+# --------------------------------------------------------------------------
+# R-C02b  wanted bands == bands of the handlers (abstract interpretation of the API entry points)
+# --------------------------------------------------------------------------
+
+def _core_key(m):
+    lm = (m.get('record'), m['field'])
+    return ('m',) + lm if lm in CORE_FIELDS else None
+
+
+BOOL_KEYS = [('m', FD, 'registered')] + [('m', FD, h) for h in HANDLER_FIELDS]
 
 
 def wanted(ctx):
     prog = ctx.prog
-    # the function that stores wanted_bands from the handlers
-    cands = [f for f in prog.all_funcs() if any(e['ev'] == 'store' and last_member(e['lhs']) == ('iv_fd_', 'wanted_bands') for e in f.events())
-             and any(e['ev'] == 'load' and last_member(e['e']) == ('iv_fd_', 'handler_in') for e in f.events())]
-    if len(cands) != 1:
-        raise AnalysisBroken('function computing wanted_bands from the handlers: %d candidates' % len(cands))
-    f = cands[0]
-    obj = None
-    for e in f.events():
-        if e['ev'] == 'store' and last_member(e['lhs']) == ('iv_fd_', 'wanted_bands'):
-            obj = canon(strip(e['lhs'])['base'])
-    names = ['%s->registered' % obj] + ['%s->%s' % (obj, h) for h in HANDLER_FIELDS]
-    import itertools
-    for vals in itertools.product((False, True), repeat=4):
-        asg = interp.Assignment(bools=dict(zip(names, vals)))
-        stored = []
-        def on(e, env):
-            if e['ev'] == 'store' and last_member(e['lhs']) == ('iv_fd_', 'wanted_bands'):
-                stored.append(interp.evaluate(e['rhs'], asg, env))
-        interp.run(f, asg, on_event=on)
-        want = 0
-        if vals[0]:
-            for (h, bit), v in zip(HANDLER_FIELDS.items(), vals[1:]):
-                if v:
-                    want |= bit
-        ok = stored and stored[-1] == want
-        ctx.ob('R-C02b', '%s:registered=%d,in=%d,out=%d,err=%d' % ((f.name,) + tuple(int(v) for v in vals)), ok, loc=f.loc,
-               detail='stored wanted_bands %s, expected %d' % (stored[-1] if stored else 'nothing', want), fn=f.q)
+    # soundness of the single-object abstraction: poll methods do not write the core's interest fields
+    inmethod = {f.q for (t, s_, f) in slot_roots(prog, slots=tuple(next(iter(prog.method_tables().values())).keys()))}
+    for fld in sorted(CORE_FIELDS):
+        for fn in {fn.q: fn for (fn, e) in prog.writers_of(*fld)}.values():
+            hit = [c.q for c in roles.callers_closure(prog, fn) if c.q in inmethod]
+            if hit:
+                raise AnalysisBroken('poll method slot %s writes %s.%s: the core/method split of the interest fields is gone' % (hit[0], fld[0], fld[1]))
+    nroots = 0
+    for f in h02.nearest_roots(prog, is_method_notify):
+        g = h02.inlined(prog, f)
+        sites = [e for e in g.events() if is_method_notify(e)]
+        if not sites:
+            continue
+        nroots += 1
+
+        def norm(key, v, e):
+            if key in BOOL_KEYS and v is not None:
+                return 1 if (v == NZ or v) else 0
+            return v
+        ai = h02.AbsInt(g, mem_key=_core_key, fork=lambda k: (0, 1) if k in BOOL_KEYS else None, norm=norm, prog=prog)
+        init = []
+        combos = list(itertools.product((0, 1), repeat=4))
+        for i, vals in enumerate(combos):
+            s = dict(zip(BOOL_KEYS, vals))
+            s[('x', 'i0')] = i
+            if vals[0]:
+                s[WANTED] = want_of(*vals)      # the invariant holds at entry for a registered descriptor
+            init.append(s)
+        ev_in = ai.run(init)
+        verdict = {}        # i0 -> (ok, detail, loc)
+
+        def judge(s, at, final, loc):
+            i0 = s.get(('x', 'i0'))
+            cur = [s.get(k) for k in BOOL_KEYS]
+            w = s.get(WANTED)
+            if any(c is None for c in cur):
+                ok, why = False, 'the abstract state does not decide registered/handlers at %s' % at
+            else:
+                f_ = want_of(*cur)
+                ok = isinstance(w, int) and ((w & 7) == f_ if final else (w & f_) == f_)
+                why = '%s: registered=%d in=%d out=%d err=%d, wanted_bands=%s, %s %d' % ((at,) + tuple(cur) + (w, 'expected' if final else 'must include', f_))
+            old = verdict.get(i0)
+            if old is None or (old[0] and not ok):
+                verdict[i0] = (ok, why, loc)
+
+        for e in sites:
+            for fs in ev_in.get((e['_b'], e['_i']), ()):
+                judge(dict(fs), 'call of %s' % canon(e['fnexpr']).split('->')[-1], False, e['loc'])
+        for (e, S) in ai.root_exits(ev_in):
+            for fs in S:
+                s = dict(fs)
+                if e is not None and 'value' in e:
+                    rc = ai.ev(e['value'], s)
+                    if rc == NZ or (isinstance(rc, int) and rc != 0):
+                        continue            # registration reported failure: the descriptor is not registered
+                if s.get(('m', FD, 'registered')) == 0 and s.get(WANTED) is None:
+                    continue                # never registered on this path: nothing was promised
+                judge(s, 'return', True, e['loc'] if e is not None else f.loc)
+        for i0 in sorted(verdict):
+            ok, why, loc = verdict[i0]
+            ctx.ob('R-C02b', '%s:registered=%d,in=%d,out=%d,err=%d' % ((f.name,) + combos[i0]), ok, loc=loc, detail=why, fn=f.q)
+    if nroots < 4:
+        raise AnalysisBroken('API entry points that notify the poll method: %d found' % nroots)
+
+
+# --------------------------------------------------------------------------
+# R-C02c  deferred updates are queued and drained before the wait
+# --------------------------------------------------------------------------
+
+def _addr_member(a):
+    a = strip(a)
+    if isinstance(a, dict) and a.get('k') == 'addr':
+        return last_member(a['e'])
+    return None
+
+
+def notify_list(prog, t):
+    """(list node field of the descriptor, list head) that table t's notify_fd queues on, or None."""
+    v = prog.method_tables()[t].get('notify_fd')
+    f = prog.resolve(*v) if v else None
+    if f is None:
+        return None
+    for e in inline_slot(prog, t, f).events():
+        if is_call(e, ('iv_list_add', 'iv_list_add_tail')) and len(e.get('args', [])) == 2:
+            n, h = _addr_member(e['args'][0]), _addr_member(e['args'][1])
+            if n and n[0] == FD and h and h[0] != FD:
+                return n, h
+    return None
 
 
 def flush(ctx):
     prog = ctx.prog
-    from . import c01
-    tabs = c01.deferring_tables(prog)
+    tabs = {}
+    for t in sorted(prog.method_tables()):
+        nl = notify_list(prog, t)
+        if nl:
+            tabs[t] = nl
     if not tabs:
         raise AnalysisBroken('no deferring poll method')
-    for t in tabs:
-        f = prog.resolve(*prog.method_tables()[t]['poll'])
-        g = Inliner(prog, method_table=t, expand_methods=True, stop=lambda x: x.name in ('iv_event_run_pending_events',)).inline(f)
-        hd = holding(g)
-        waits = [e for e in g.events() if is_call(e, ('epoll_wait', 'epoll_pwait2', 'poll', 'ppoll'))]
+    for t, (node, head) in sorted(tabs.items()):
+        slots = prog.method_tables()[t]
+        f = prog.resolve(*slots['poll'])
+        g = inline_slot(prog, t, f)
+        waits = [e for e in g.events() if is_call(e, WAITS)]
         if not waits:
             raise AnalysisBroken('%s: wait primitive not found' % f.name)
+
+        def tr(e, s, head=head):
+            if e['ev'] != 'call':
+                return s
+            nm = e.get('callee')
+            a = [_addr_member(x) for x in e.get('args', [])]
+            if nm in ('iv_list_add', 'iv_list_add_tail') and len(a) == 2 and (a[1] == head or a[0] == head):
+                return False
+            if nm in ('iv_list_splice', 'iv_list_splice_tail', '__iv_list_splice') and len(a) >= 2 and a[1] == head:
+                return False
+            if nm in ('iv_list_splice_init', 'iv_list_splice_tail_init', '__iv_list_steal_elements') and len(a) == 2:
+                if a[1] == head:
+                    return False
+                if a[0] == head:
+                    return True
+            if nm == 'INIT_IV_LIST_HEAD' and a and a[0] == head:
+                return True
+            if 'fnexpr' in e and (callback_kind(e) or ('', ''))[0] != 'method':
+                return False            # a user callback may change a handler
+            if nm and nm not in h02.PRIMITIVES and any(x.name == nm and x.blocks for x in prog.funcs.values()):
+                return False            # library code that was not inlined
+            return s
+
+        def edge(blk, si, s, head=head):
+            if blk.term and blk.term.get('cond') is not None and len(blk.succ) == 2 and blk.term.get('cls') not in ('SwitchStmt', 'MethodDispatch'):
+                for at in norm_cond(blk.term['cond'], si == 0):
+                    if at[0] != 'const' and list_empty_test(at, member_key=head) == 'empty':
+                        return True
+            return s
+        _, ev_in = forward(g, False, tr, lambda a, b: a and b, edge=edge)
         for w in waits:
-            A = hd.get((w['_b'], w['_i']), frozenset())
-            ok = any(a[0] == '!=' and a[2] == '0' and a[1].startswith('iv_list_empty(') and a[1].endswith('notify)') for a in A)
-            ctx.ob('R-C02c', '%s:%s:notify-list-empty' % (t.replace('iv_fd_poll_method_', ''), w['callee']), ok, loc=w['loc'],
-                   detail='at %s the deferred-update list is known empty (flush loop ran to completion)' % w['callee'],
+            ok = bool(ev_in.get((w['_b'], w['_i'])))
+            ctx.ob('R-C02c', '%s:%s:notify-list-empty' % (short(t), w['callee']), ok, loc=w['loc'],
+                   detail='at %s the deferred-update list (%s.%s) is known empty on every path (drained, nothing queued since)' % (w['callee'], head[0], head[1]),
                    path=None if ok else path_to(g, w), fn=f.q)
-    # registered_bands stored only on the success edge of the kernel call
-    for f in prog.all_funcs():
-        if not f.file.endswith('iv_fd_epoll.c'):
-            continue
-        hd = None
-        for e in f.events():
-            if e['ev'] == 'store' and last_member(e['lhs']) == ('iv_fd_', 'registered_bands') and any(is_call(x, 'epoll_ctl') for x in f.events()):
-                hd = hd or holding(f)
-                A = hd.get((e['_b'], e['_i']), frozenset())
-                ok = any(a[0] == '==' and a[2] == '0' and all(k[0] == 'var' for k in a[3]) for a in A) \
-                    and last_member(e['rhs']) == ('iv_fd_', 'wanted_bands')
-                ctx.ob('R-C02c', '%s:registered_bands-on-success' % f.name, ok, loc=e['loc'],
-                       detail='registered_bands = wanted_bands only when epoll_ctl returned 0', fn=f.q)
+
+        # notify_fd queues the descriptor whenever the kernel's view differs from the wanted bands
+        nf = prog.resolve(*slots['notify_fd'])
+        gn = inline_slot(prog, t, nf)
+        Q = ('x', 'queued')
+
+        def on_event(e, s, ai, node=node, head=head):
+            if e['ev'] != 'call':
+                return None
+            nm = e.get('callee')
+            a = [_addr_member(x) for x in e.get('args', [])]
+            if nm in ('iv_list_add', 'iv_list_add_tail') and len(a) == 2 and a[0] == node:
+                return _with(s, Q, 1 if a[1] == head else 0)
+            if nm in ('iv_list_del', 'iv_list_del_init') and a and a[0] == node:
+                return _with(s, Q, 0)
+            return None
+
+        class AI(h02.AbsInt):
+            def ev(self, e, s, node=node):
+                if isinstance(e, dict) and e.get('k') == 'call' and e.get('callee') == 'iv_list_empty' and e.get('args') \
+                        and _addr_member(e['args'][0]) == node and s.get(Q) is not None:
+                    return 1 - s[Q]
+                return h02.AbsInt.ev(self, e, s)
+        ai = AI(gn, mem_key=_band_key, pinned={WANTED}, on_event=on_event, prog=prog)
+        init = [{WANTED: w, REGD: r, Q: q} for w in range(8) for r in range(8) for q in (0, 1)]
+        ev_in = ai.run(init)
+        bad = None
+        n = 0
+        for (e, S) in ai.root_exits(ev_in):
+            for fs in S:
+                s = dict(fs)
+                n += 1
+                r_, w_ = s.get(REGD), s.get(WANTED)
+                if s.get(Q) != 1 and bad is None and not (isinstance(r_, int) and isinstance(w_, int) and (w_ & ~r_ & 7) == 0):
+                    bad = s
+        if not n:
+            raise AnalysisBroken('%s.notify_fd: no return reached by the abstract interpretation' % t)
+        ctx.ob('R-C02c', '%s:notify_fd:queues-changed-descriptor' % short(t), bad is None, loc=nf.loc,
+               detail='at return of notify_fd a descriptor that wants a band the kernel has not been told about (wanted_bands & ~registered_bands) '
+                      'is on the deferred-update list'
+                      + ('' if bad is None else ' (counterexample: registered=%s wanted=%s)' % (bad.get(REGD), bad.get(WANTED))), fn=nf.q)
 
 
-def tables(ctx):
+def _with(s, k, v):
+    s = dict(s)
+    s[k] = v
+    return s
+
+
+def _band_key(m):
+    lm = (m.get('record'), m['field'])
+    if lm == (FD, 'wanted_bands'):
+        return WANTED
+    if lm == (FD, 'registered_bands'):
+        return REGD
+    return None
+
+
+# --------------------------------------------------------------------------
+# R-C02d (request side) / R-C02c (kernel bookkeeping): what the kernel is told, as a function of wanted_bands
+# --------------------------------------------------------------------------
+
+def _is_fd_pointer(x):
+    x = strip(x)
+    if not isinstance(x, dict):
+        return False
+    if x.get('k') == 'var':
+        return x.get('record') == FD and bool(x.get('ptr'))
+    if x.get('k') == 'member':
+        return x.get('trecord') == FD and bool(x.get('tptr'))
+    if x.get('k') == 'container_of':
+        return x.get('record') == FD
+    if x.get('k') == 'cast':
+        return x.get('record') == FD
+    return False
+
+
+def _is_token_key(key):
+    return key[0] == 'l' and key[2][0] == ('epoll_event', 'data') and key[2][-1][1] == 'ptr'
+
+
+def kernel_requests(ctx):
     prog = ctx.prog
-    # request side
-    for f in sorted(prog.all_funcs(), key=lambda f: f.q):
-        if f.name != 'bits_to_poll_mask':
+    sites = {}          # loc -> dict(kind, w -> (ok, detail), fn)
+    regd = {}           # loc -> dict(okval, okedge, detail, fn)
+    kept = {}           # loc -> (ok, detail, fn)
+    tables_with_site = set()
+    deferring = {t for t in prog.method_tables() if notify_list(prog, t)}
+    users = {}
+    for t_, sl in prog.method_tables().items():
+        for s_ in SLOTS:
+            v_ = sl.get(s_)
+            f_ = prog.resolve(*v_) if v_ and v_[0] != 'str' else None
+            if f_ is not None:
+                users.setdefault(f_.q, set()).add(t_)
+
+    def norm(key, v, e):
+        if _is_token_key(key) and e is not None and 'rhs' in e:
+            return 1 if _is_fd_pointer(e['rhs']) else 0
+        return v
+
+    for (t, slot, f) in slot_roots(prog):
+        g = inline_slot(prog, t, f)
+        # requests written into the persistent pollfd array (not the local probe of notify_fd_sync); a store whose value is
+        # read from another slot's events field moves an existing request (swap-remove, R-C02f), it does not make one
+        k_stores = [e for e in g.events() if e['ev'] == 'store' and last_member(e['lhs']) == REQ_POLL and h02.local_path(e['lhs']) is None
+                    and not (e['op'] == '=' and last_member(e.get('rhs')) == REQ_POLL)]
+        # ... or a whole entry written from a compound literal / initialiser list
+        w_stores = []
+        for e in g.events():
+            if e['ev'] == 'store' and e['op'] == '=' and strip(e['lhs']).get('k') in ('index', 'deref') \
+                    and _tname(strip(e['lhs']).get('type')) == 'struct pollfd':
+                lit = e.get('rhs')
+                while isinstance(lit, dict) and lit.get('k') in ('load', 'cast', 'compound', 'stmtexpr') and 'e' in lit:
+                    lit = lit['e']
+                if isinstance(lit, dict) and lit.get('k') == 'init' and isinstance(lit.get('fields'), dict):
+                    w_stores.append((e, lit['fields'].get('events')))
+        ctls = [e for e in g.events() if is_call(e, 'epoll_ctl') and len(e.get('args', [])) == 4]
+        r_stores = [e for e in g.events() if e['ev'] == 'store' and last_member(e['lhs']) == (FD, 'registered_bands')] if ctls else []
+        sync = slot == 'notify_fd_sync' and t in deferring
+        if not (k_stores or w_stores or ctls or sync):
             continue
-        isepoll = f.file.endswith('iv_fd_epoll.c')
-        p = f.params[0]['name']
-        for bits in range(8):
-            res = interp.run(f, interp.Assignment(), env={p: bits})
-            mask = res['ret']
-            need = 0
-            if bits & MASKIN:
-                need |= IN
-            if bits & MASKOUT:
-                need |= OUT
-            if not isepoll and bits & MASKERR:
-                need |= HUP
-            ok = isinstance(mask, int) and (mask & need) == need and (bits != 0 or mask == 0)
-            ctx.ob('R-C02d', '%s:request(bits=%d)' % (relpath(f.file).split('/')[-1], bits), ok, loc=f.loc,
-                   detail='requested event mask %s must include %d' % (mask, need), fn=f.q)
-    # report side: every make_ready call
-    want = {MASKIN: IN | ERR | HUP, MASKOUT: OUT | ERR | HUP, MASKERR: ERR | HUP}
-    n = 0
-    for f in sorted(prog.all_funcs(), key=lambda f: f.q):
-        calls = [e for e in f.events() if is_call(e, 'iv_fd_make_ready')]
+
+        def nested(s, name, rec, fld, node):
+            # `.data = { .ptr = x }` / `.data.ptr = x` in an initialiser of a struct epoll_event
+            if (rec, fld) == ('epoll_event', 'data') and len(node.get('elems', [])) == 1:
+                s[('l', name, ((rec, fld), ('epoll_data', 'ptr')))] = 1 if _is_fd_pointer(node['elems'][0]) else 0
+        ai = h02.AbsInt(g, mem_key=_band_key, pinned={WANTED}, norm=norm, quiet_calls=('epoll_ctl',), prog=prog, on_nested_init=nested)
+        ev_in = ai.run([{WANTED: w, REGD: r} for w in range(8) for r in range(8)])
+
+        def states(e):
+            return [dict(fs) for fs in ev_in.get((e['_b'], e['_i']), ())]
+
+        def record(e, kind, w, ok, detail):
+            d = sites.setdefault(e['loc'], {'kind': kind, 'fn': f.q, 'w': {}})
+            old = d['w'].get(w)
+            if old is None or (old[0] and not ok):
+                d['w'][w] = (ok, detail)
+
+        for (e, x) in [(e, e.get('rhs') if e['op'] == '=' else None) for e in k_stores] + w_stores:
+            for s in states(e):
+                w = s[WANTED]
+                v = ai.ev(x, s) if x is not None else None
+                need = need_of(REQ_POLL, w)
+                ok = isinstance(v, int) and (v & need) == need and (w != 0 or v == 0)
+                record(e, REQ_POLL, w, ok, 'pollfd.events = %s for wanted bands %d, must include %d%s' % (v, w, need, '' if w else ' and be 0'))
+                tables_with_site.update(users[f.q])
+        for e in ctls:
+            ev_arg = strip(e['args'][3])
+            var = strip(ev_arg['e']) if isinstance(ev_arg, dict) and ev_arg.get('k') == 'addr' else None
+            name = var['name'] if isinstance(var, dict) and var.get('k') == 'var' else None
+            for s in states(e):
+                w = s[WANTED]
+                tok = [v for k, v in s.items() if name and k[0] == 'l' and k[1] == name and _is_token_key(k)]
+                if tok and tok[0] == 0:
+                    continue                 # kick / timer token, not a descriptor
+                tables_with_site.update(users[f.q])
+                op = ai.ev(e['args'][1], s)
+                if w != 0:
+                    ok = isinstance(op, int) and op != EPOLL_CTL_DEL
+                    old = kept.get(e['loc'])
+                    if old is None or (old[0] and not ok):
+                        kept[e['loc']] = (ok, 'epoll_ctl op is %s with wanted bands %d (registered %s): a descriptor with wanted bands stays in the kernel set'
+                                          % (op, w, s.get(REGD)), f.q)
+                if op == EPOLL_CTL_DEL:
+                    continue
+                v = s.get(('l', name, (REQ_EPOLL,))) if name else None
+                need = need_of(REQ_EPOLL, w)
+                ok = isinstance(v, int) and (v & need) == need and (w != 0 or v == 0)
+                record(e, REQ_EPOLL, w, ok, 'epoll_event.events = %s for wanted bands %d, must include %d%s' % (v, w, need, '' if w else ' and be 0'))
+        if r_stores:
+            hd = holding(g)
+            rets = set()
+            for e in g.events():
+                if e['ev'] == 'store' and 'rhs' in e and any(x.get('k') == 'call' and x.get('callee') == 'epoll_ctl' for x in walk(e['rhs'])):
+                    rets.add(canon(e['lhs']))
+            changed = True
+            while changed:          # copies of the result (return temporaries of an extracted retry helper)
+                changed = False
+                for e in g.events():
+                    if e['ev'] == 'store' and e.get('op') == '=' and 'rhs' in e and canon(e['lhs']) not in rets:
+                        r_ = strip(e['rhs'])
+                        if isinstance(r_, dict) and r_.get('k') == 'var' and r_['name'] in rets:
+                            rets.add(canon(e['lhs']))
+                            changed = True
+            for e in r_stores:
+                A = hd.get((e['_b'], e['_i']), frozenset())
+                okedge = any(atoms_imply(A, '>=', v, '0') for v in rets) or any(a[1].startswith('epoll_ctl(') and atoms_imply(A, '>=', a[1], '0') for a in A)
+                okval, why = True, ''
+                for s in states(e):
+                    v = ai.ev(e.get('rhs'), s) if e['op'] == '=' else None
+                    if v != s[WANTED]:
+                        okval, why = False, ' (stores %s with wanted bands %d, registered %s)' % (v, s[WANTED], s.get(REGD))
+                        break
+                d = regd.setdefault(e['loc'], {'okval': True, 'okedge': True, 'why': '', 'fn': f.q})
+                d['okval'] &= okval
+                d['okedge'] &= okedge
+                d['why'] = d['why'] or why
+        if sync:
+            bad, n = None, 0
+            for (e, S) in ai.root_exits(ev_in):
+                for fs in S:
+                    s = dict(fs)
+                    rc = ai.ev(e['value'], s) if e is not None and 'value' in e else 0
+                    if rc == NZ or (isinstance(rc, int) and rc != 0):
+                        continue
+                    n += 1
+                    if s.get(REGD) != s[WANTED] and bad is None:
+                        bad = s
+            if not n:
+                raise AnalysisBroken('%s.notify_fd_sync: no successful return reached' % t)
+            ctx.ob('R-C02c', '%s:notify_fd_sync:registered-equals-wanted' % short(t), bad is None, loc=f.loc,
+                   detail='at a successful return of the synchronous flush registered_bands == wanted_bands'
+                          + ('' if bad is None else ' (counterexample: wanted %s, registered %s)' % (bad.get(WANTED), bad.get(REGD))), fn=f.q)
+    for t in sorted(prog.method_tables()):
+        if t not in tables_with_site:
+            raise AnalysisBroken('%s: no site where the kernel is told the requested events (pollfd.events store / epoll_ctl)' % t)
+    for i, loc in enumerate(sorted(sites)):
+        d = sites[loc]
+        for w in sorted(d['w']):
+            ok, detail = d['w'][w]
+            ctx.ob('R-C02d', '%s#%d:request(bits=%d)' % ('poll-array' if d['kind'] == REQ_POLL else 'epoll_ctl', i, w), ok, loc=loc, detail=detail, fn=d['fn'])
+    for i, loc in enumerate(sorted(kept)):
+        ok, detail, fn = kept[loc]
+        ctx.ob('R-C02c', 'epoll_ctl#%d:kept-in-kernel-set' % i, ok, loc=loc, detail=detail, fn=fn)
+    for i, loc in enumerate(sorted(regd)):
+        d = regd[loc]
+        ctx.ob('R-C02c', 'registered_bands#%d:on-success' % i, d['okval'] and d['okedge'], loc=loc,
+               detail='registered_bands = wanted_bands%s, only when epoll_ctl did not fail%s' % (d['why'], '' if d['okedge'] else ' (not on the success edge)'), fn=d['fn'])
+    if deferring and not regd:
+        raise AnalysisBroken('deferring poll method: no store to registered_bands next to the kernel call')
+
+
+# --------------------------------------------------------------------------
+# R-C02d (report side): bands reported for a batch entry as a function of its kernel event mask
+# --------------------------------------------------------------------------
+
+def _sigma_key(m):
+    lm = (m.get('record'), m['field'])
+    if lm in EVENT_SOURCES and h02.local_path(m) is None:
+        return ('m', 'kernel', 'events')
+    return None
+
+
+def report(ctx):
+    prog = ctx.prog
+    SIG, T, R, U = ('m', 'kernel', 'events'), ('x', 'tested'), ('x', 'reported'), ('x', 'unknown-band')
+    for t, slots in sorted(prog.method_tables().items()):
+        v = slots.get('poll')
+        f = prog.resolve(*v) if v else None
+        if f is None:
+            raise AnalysisBroken('%s: no poll slot' % t)
+        g = inline_slot(prog, t, f, stop=('iv_event_run_pending_events', 'iv_fd_make_ready'))
+        calls = [e for e in g.events() if is_call(e, 'iv_fd_make_ready') and len(e.get('args', [])) == 3]
         if not calls:
-            continue
-        hd = holding(f)
-        seen = set()
+            raise AnalysisBroken('%s: the poll slot never reports a descriptor (iv_fd_make_ready)' % t)
+        callids = {id(e) for e in calls}
+        # variables through which the kernel event mask flows / which select the batch entry
+        defs = {}
+        for e in g.events():
+            if e['ev'] == 'store' and 'rhs' in e:
+                l = strip(e['lhs'])
+                if isinstance(l, dict) and l.get('k') == 'var':
+                    defs.setdefault(l['name'], []).append(e['rhs'])
+
+        def sigma_nodes(x):
+            return [y for y in walk(x) if y.get('k') == 'member' and _sigma_key(y)]
+        tainted = set()
+        changed = True
+        while changed:
+            changed = False
+            for vn, rhss in defs.items():
+                if vn not in tainted and any(sigma_nodes(r) or (h02.local_vars_in(r) & tainted) for r in rhss):
+                    tainted.add(vn)
+                    changed = True
+
+        def mentions_sigma(x):
+            return bool(sigma_nodes(x)) or bool(h02.local_vars_in(x) & tainted)
+
+        def deps(x):
+            out, work = set(), list(h02.local_vars_in(x))
+            while work:
+                vn = work.pop()
+                if vn in out:
+                    continue
+                out.add(vn)
+                for r in defs.get(vn, []):
+                    work += list(h02.local_vars_in(r))
+            return out
+        sdeps = set()
+        for e in g.events():
+            for n_ in sigma_nodes(e):
+                sdeps |= deps(n_)
+        for b in g.blocks.values():
+            if b.term and b.term.get('cond') is not None:
+                for n_ in sigma_nodes(b.term['cond']):
+                    sdeps |= deps(n_)
+        # the batch cursor: variables that select the entry (the descriptor argument and the event mask depend on them) and
+        # that are *advanced* (i++, p = p + 1, pos = pos->next): between two advances one entry is examined
+        advancing = set()
+        for e in g.events():
+            if e['ev'] == 'store':
+                l = strip(e['lhs'])
+                if isinstance(l, dict) and l.get('k') == 'var' and (e['op'] != '=' or l['name'] in h02.local_vars_in(e.get('rhs'))):
+                    advancing.add(l['name'])
+        cursor = set(sdeps)
         for e in calls:
-            band = strip(e['args'][2])
-            if band.get('k') != 'int':
-                raise AnalysisBroken('%s: band argument of iv_fd_make_ready is not constant' % f.name)
-            A = hd.get((e['_b'], e['_i']), frozenset())
-            masks = []
-            for a in A:
-                m = re.match(r'^\((.+) & (\d+)\)$', a[1])
-                if m and a[0] == '!=' and a[2] == '0':
-                    masks.append(int(m.group(2)))
-            n += 1
-            seen.add(band['v'])
-            ok = masks and want.get(band['v']) in masks
-            ctx.ob('R-C02d', '%s:report(band=%d)' % (f.name, band['v']), bool(ok), loc=e['loc'],
-                   detail='band %d is reported under event mask %s, expected %s' % (band['v'], masks, want.get(band['v'])), fn=f.q)
-        ctx.ob('R-C02d', '%s:all-bands-reported' % f.name, seen == {MASKIN, MASKOUT, MASKERR}, loc=f.loc,
-               detail='bands reported by this activation code: %s' % sorted(seen), fn=f.q)
-    if n < 9:
-        raise AnalysisBroken('activation sites: %d found, 9 confirmed' % n)
+            cursor |= deps(e['args'][1])
+        cursor &= advancing
+
+        def is_boundary(e):
+            if e['ev'] != 'store':
+                return False
+            l = strip(e['lhs'])
+            return isinstance(l, dict) and l.get('k') == 'var' and l['name'] in cursor
+
+        def on_event(e, s, ai):
+            if is_boundary(e):
+                s = dict(s)
+                s[T], s[R] = 0, 0
+                s.pop(U, None)
+                return s
+            if id(e) in callids:
+                b = ai.ev(e['args'][2], s)
+                s = dict(s)
+                if isinstance(b, int):
+                    s[R] = s.get(R, 0) | (b & 7)
+                else:
+                    s[U] = 1
+                return s
+            return None
+
+        def on_edge(blk, si, s, ai):
+            if s.get(T) != 1 and mentions_sigma(blk.term['cond']):
+                return _with(s, T, 1)
+            return None
+        ai = h02.AbsInt(g, mem_key=_sigma_key, pinned={SIG}, on_event=on_event, on_edge=on_edge, prog=prog)
+        ev_in = ai.run([{SIG: (IN if i & 1 else 0) | (OUT if i & 2 else 0) | (ERR if i & 4 else 0) | (HUP if i & 8 else 0), T: 0, R: 0}
+                        for i in range(16)])
+        lost, extra, unknown = {}, {}, None
+        checkpoints = [(e, ev_in.get((e['_b'], e['_i']), ())) for e in g.events() if is_boundary(e)] + ai.root_exits(ev_in)
+        for (e, S) in checkpoints:
+            for fs in S:
+                s = dict(fs)
+                if not s.get(T):
+                    continue
+                if s.get(U):
+                    unknown = s
+                want, got = report_of(s[SIG]), s.get(R, 0)
+                for band in (MASKIN, MASKOUT, MASKERR):
+                    if want & band and not got & band:
+                        lost.setdefault(band, s[SIG])
+                    if got & band and not want & band:
+                        extra.setdefault(band, s[SIG])
+        if unknown is not None:
+            raise AnalysisBroken('%s: the band argument of iv_fd_make_ready is not decided by the abstract state' % t)
+        for band in (MASKIN, MASKOUT, MASKERR):
+            locs = [e['loc'] for e in calls if strip(e['args'][2]).get('v') == band] or [f.loc]
+            ok = band not in lost and band not in extra
+            ctx.ob('R-C02d', '%s:report(band=%d)' % (short(t), band), ok, loc=locs[0],
+                   detail='for every kernel event mask over {IN,OUT,ERR,HUP} an examined batch entry is reported for band %d exactly when the mask '
+                          'meets %d%s%s' % (band, {MASKIN: IN | ERR | HUP, MASKOUT: OUT | ERR | HUP, MASKERR: ERR | HUP}[band],
+                                            ('; NOT reported under mask %d (readiness lost)' % lost[band]) if band in lost else '',
+                                            ('; reported under mask %d' % extra[band]) if band in extra else ''), fn=f.q)
+
+
+class _Borrowed:
+    """ctx stand-in for a rule borrowed from another module: obligations are collected, everything else is the real ctx."""
+
+    def __init__(self, ctx):
+        self._ctx = ctx
+        self.sub = []
+
+    def ob(self, rid, inst, ok, **kw):
+        self.sub.append((rid, inst, ok, kw))
+
+    def exempt(self, *a, **k):
+        pass
+
+    def rule(self, *a, **k):
+        pass
+
+    def __getattr__(self, name):
+        return getattr(self._ctx, name)
 
 
 def zero(ctx):
-    sub = []
-    import types
-    proxy = types.SimpleNamespace(prog=ctx.prog, ob=lambda rid, inst, ok, **kw: sub.append((rid, inst, ok, kw)))
+    proxy = _Borrowed(ctx)
     c06.zero_timeout(proxy)
-    for rid, inst, ok, kw in sub:
+    for rid, inst, ok, kw in proxy.sub:
         if rid == 'R-C06b':
             ctx.ob('R-C02e', inst, ok, **kw)
